@@ -118,6 +118,68 @@ func c23Run(c *fx.Ctx) {
 			}
 		}
 	}
+	// every code point as a one-character text value: the text written for the byte-delivered and chunked forms must
+	// equal the text written for OnStringlikeArray (64 values per document, bisected on difference)
+	type tform struct {
+		name string
+		f    func(at events.ArrayType, b []byte) []ev.E
+	}
+	tforms := []tform{
+		{"bytes", func(at events.ArrayType, b []byte) []ev.E { return []ev.E{ev.EArr(at, uint64(len(b)), b)} }},
+		{"one-chunk", func(at events.ArrayType, b []byte) []ev.E {
+			return []ev.E{ev.EABegin(at), ev.EChunk(uint64(len(b)), false), ev.EData(b)}
+		}},
+		{"split-data", func(at events.ArrayType, b []byte) []ev.E {
+			return []ev.E{ev.EABegin(at), ev.EChunk(uint64(len(b)), false), ev.EData(b[:1]), ev.EData(b[1:])}
+		}},
+	}
+	mk := func(at events.ArrayType, rs []rune, f func(at events.ArrayType, b []byte) []ev.E) []ev.E {
+		doc := []ev.E{ev.EBD(), ev.EV(0), ev.EList()}
+		for _, r := range rs {
+			doc = append(doc, f(at, []byte("x"+string(r)))...)
+		}
+		return append(doc, ev.EEnd(), ev.EED())
+	}
+	for base := 0; base < 0x110000; base += 64 {
+		if !c.Take() {
+			continue
+		}
+		var runes []rune
+		for cp := base; cp < base+64; cp++ {
+			if cp < 0xD800 || cp > 0xDFFF {
+				runes = append(runes, rune(cp))
+			}
+		}
+		if len(runes) == 0 {
+			continue
+		}
+		for _, at := range []events.ArrayType{events.ArrayTypeString, events.ArrayTypeResourceID, events.ArrayTypeReferenceRemote} {
+			for _, tf := range tforms {
+				var try func(rs []rune)
+				try = func(rs []rune) {
+					refDoc := mk(at, rs, func(at events.ArrayType, b []byte) []ev.E { return []ev.E{ev.ESArr(at, string(b))} })
+					doc := mk(at, rs, tf.f)
+					ref, _, err1 := codec.Encode(codec.CTE, refDoc, nil, true)
+					text, _, err2 := codec.Encode(codec.CTE, doc, nil, true)
+					c.Add("evaluations", 1)
+					c.Add("codepoint_form_docs", 1)
+					if (err1 == nil) == (err2 == nil) && bytes.Equal(ref, text) {
+						return
+					}
+					if len(rs) > 1 {
+						try(rs[:len(rs)/2])
+						try(rs[len(rs)/2:])
+						return
+					}
+					c.Violation(fmt.Sprintf("text-depends-on-delivery-form:%s:%s:%s", at, tf.name, charClass(rs[0])),
+						fmt.Sprintf("code point U+%04X delivered as %s writes %q (err=%v) but as OnStringlikeArray %q (err=%v)", rs[0], tf.name, clipS(string(text)), err2, clipS(string(ref)), err1),
+						rtWitness{Format: "cte", Events: doc, Text: string(text)})
+				}
+				try(runes)
+			}
+		}
+	}
+
 	// textual idempotence over the C02 corpus
 	o := corpusOpts{structDepth: c.Pick(5, 6), floatStride: c.Pick(64, 8), latlong: 20, arrayFullMax: c.Pick(3, 5), comments: true, customText: true}
 	forEachCorpusDoc(c, o, func(doc []ev.E, cls string) {
@@ -147,6 +209,7 @@ func init() {
 		ID:    "C23",
 		Level: "exploration",
 		Rule: "every array kind × lengths {0..6,8,15,16,17} × every chunking × every data-event split (all splits for <=5/6 elements and payloads <=8 bytes, else <=3 cuts at every byte offset) × 6 contexts: emitted CTE must equal, byte for byte, the text emitted for the whole-array event; " +
+			"every Unicode code point as a one-character string / resource ID / remote reference delivered as bytes, one chunk and split data must write the same text as OnStringlikeArray; " +
 			"plus textual idempotence encode(decode(encode(x)))==encode(x) over the C02 corpus; distinct_nontrivial = distinct chunked documents",
 		Assumptions: []string{"string-like chunkings are restricted to chunks ending on character boundaries (others are invalid per C11)"},
 		TrustedBase: []string{"none beyond the whole-array form as reference (differential)"},
